@@ -169,7 +169,7 @@ def gen_laws(rng, n):
             for _ in range(rng.randint(1, 3)):
                 history.append({"target": rng.choice(["A", "A", "B", "X"]), "how": rng.choice(["item", "item", "slice", "ellipsis"])})
         yield {"op": "laws", "kind": kind, "cx": cx, "shape": shape, "tshape": ts, "n": rng.choice([2, 2, 3, 4]), "seed": rng.randrange(10 ** 9),
-               "history": history}
+               "history": history, "identity": c // 3}
 
 
 def run_laws(inp):
@@ -224,8 +224,43 @@ def run_laws(inp):
     if type(AB) is not type(B) or tuple(AB.shape) != tuple(np.broadcast_shapes(tuple(A.shape), tuple(B.shape))):
         bad.append({"what": "compose:type/shape", "got": [type(AB).__name__, list(AB.shape)]})
     cmp("assoc", AB @ X, A @ (B @ X))
-    I = (H.identity(n) if not cx and kind != "simplex" else P.Transformation(np.identity(n + 1)))
+    hyp = not cx and kind != "simplex"
+    src = inp.get("identity", 0) % 4
+    if src == 0:
+        I = H.identity(n) if hyp else P.identity(n)
+    elif src == 1:
+        rep0 = H.HyperbolicRepresentation() if hyp else P.ProjectiveRepresentation()
+        rep0["a"] = O.isometries(g, [], n) if hyp else O.invertibles(g, [], n, cx)
+        I = rep0[""]
+    elif src == 2:
+        I = H.Isometry.standard_rotation(0.0, dimension=n) if hyp else P.Transformation(np.identity(n + 1))
+    else:
+        I = (H.Isometry if hyp else P.Transformation)(np.identity(n + 1))
     cmp("identity", I @ X, (x0, a0))
+    # an image is an object of its own: editing it in place must not reach back into X (nor into images computed earlier)
+    earlier = A @ X
+    e0 = np.array(earlier.proj_data)
+    for nm, img in (("identity", I @ X), ("A", A @ X), ("AB", (A @ B) @ X)):
+        try:
+            shp = tuple(img.shape)
+            other = O.mk(kind, g, shp, n, cx)
+            if shp and g.random() < 0.6:
+                img[int(g.integers(0, shp[0]))] = np.array(other.proj_data[0])
+            else:
+                img[...] = np.array(other.proj_data)
+        except Exception as e:
+            bad.append({"what": "edit_image_raised", "image": nm, "exc": type(e).__name__, "msg": str(e)[:100]})
+            continue
+        if not np.array_equal(np.array(X.proj_data), x0) or (a0 is not None and not np.array_equal(np.array(X.aux_data), a0)):
+            bad.append({"what": "editing_image_changed_original", "image": nm + " @ X", "identity_source": ["identity()", "rep['']", "standard_rotation(0)", "Cls(eye)"][src],
+                        "expected": "X unchanged after an in-place edit of T @ X"})
+            break
+        if not np.array_equal(np.array(earlier.proj_data), e0):
+            bad.append({"what": "editing_image_changed_earlier_image", "image": nm})
+            break
+        if X.aux_data is not None and not O.aux_proj_eq(kind, X.aux_data, type(X)(np.array(X.proj_data)).aux_data, 1e-6):
+            bad.append({"what": "original_aux_stale_after_editing_image", "image": nm})
+            break
     cmp("inverse", A.inv() @ (A @ X), (x0, a0))
     cmp("inverse2", A @ (A.inv() @ X), (x0, a0))
     Ai = A.inv()
@@ -254,7 +289,8 @@ def gen_rep(rng, n):
         aut = {str(v): {l: rng.randrange(nst) for l in "abAB" if rng.random() < 0.6} for v in range(nst)}
         yield {"op": "rep", "n": rng.choice([2, 3]), "seed": rng.randrange(10 ** 9), "hyp": c % 2 == 0,
                "words": ["".join(rng.choice("abAB") for _ in range(rng.randint(0, 7))) for _ in range(3)], "shape": rng.choice(O.SHAPES[:7]),
-               "automaton": aut, "length": rng.choice([2, 3, 3, 4])}
+               "automaton": aut, "length": rng.choice([2, 3, 3, 4]),
+               "mixed": None if c % 3 else {"int": rng.choice("ab"), "order": rng.choice(["ab", "ba"]), "dtype": rng.choice(["int", "int", "int32", "float32"])}}
 
 
 def run_rep(inp):
@@ -269,9 +305,26 @@ def run_rep(inp):
         rep = P.ProjectiveRepresentation()
         gens = {k: O.invertibles(g, [], n) for k in "ab"}
         pts = P.Point(g.normal(size=tuple(inp["shape"]) + (n + 1,)))
-    for k, T in gens.items():
-        rep[k] = T
-    col = {k: np.array(T.matrix).T for k, T in gens.items()}          # the matrix acting on columns
+    mixed = inp.get("mixed")
+    if mixed:
+        # generators of mixed dtype (one with integer entries and integer dtype), assigned in either order
+        Tcls = H.Isometry if inp["hyp"] else P.Transformation
+        if inp["hyp"]:
+            M = np.identity(n + 1, dtype=np.int64)
+            i, j = 1, 2
+            M[i, i], M[i, j], M[j, i], M[j, j] = 0, -1, 1, 0             # a quarter turn: an isometry with integer entries
+        else:
+            M = np.identity(n + 1, dtype=np.int64)
+            M[0, 1], M[1, 2 % (n + 1)] = 2, -1                            # unimodular
+            M[2 % (n + 1), 0] += 1
+        which = mixed["int"]
+        gens[which] = Tcls(M.astype({"int": np.int64, "int32": np.int32, "float32": np.float32}[mixed["dtype"]]))
+        order = list(mixed["order"])
+    else:
+        order = list(gens)
+    for k in order:
+        rep[k] = gens[k]
+    col = {k: np.array(T.matrix, dtype=float).T for k, T in gens.items()}          # the matrix acting on columns
     col.update({k.upper(): np.linalg.inv(M) for k, M in list(col.items())})
 
     def colmat(w):
@@ -290,6 +343,14 @@ def run_rep(inp):
             bad.append({"what": "type/shape", "word": w})
         elif not O.rows_proj_eq(R.proj_data, want, 1e-7) or not O.allclose(R.proj_data, want, 1e-6):
             bad.append({"what": "word_action", "word": w, "expected": "rep[w] @ p = (matrix of w) . (column p)"})
+    # the batched APIs return, word by word, the single-word image
+    batched = [("elements", rep.elements(inp["words"]))]
+    batched.append(("isometries", rep.isometries(inp["words"])) if inp["hyp"] else ("transformations", rep.transformations(inp["words"])))
+    for nm, E in batched:
+        for j, w in enumerate(inp["words"]):
+            if not O.allclose(np.array(E.matrix, dtype=float)[j], np.array(rep[w].matrix, dtype=float), 1e-9):
+                bad.append({"what": "batched_vs_single", "api": nm, "word": w, "expected": "rep.%s(words)[j] = rep[words[j]]" % nm})
+                break
     u, v = inp["words"][0], inp["words"][1]
     if not O.allclose((rep[u] @ rep[v]).matrix, rep[u + v].matrix, 1e-6):
         bad.append({"what": "rep[u]@rep[v] != rep[uv]", "u": u, "v": v})
